@@ -162,7 +162,7 @@ pub fn resolve_r<T: ReadTxn>(roots: &[Out; 4], txn: &T, p: &Path) -> Option<Out>
 }
 fn gen_text<T: ReadTxn, X: Text>(r: &mut Rng, cfg: &GenCfg, t: &X, txn: &T, p: Path, xml: bool) -> Op {
     let pos = text_positions(&t.diff(txn, YChange::identity)); let n = pos.len() - 1;
-    let span = |r: &mut Rng| { let i = r.below(n as u64) as usize; let j = r.range(i as u64 + 1, (n as u64).min(i as u64 + 4)) as usize; (pos[i], pos[j] - pos[i]) };
+    let span = |r: &mut Rng| { let i = r.below(n as u64) as usize; let j = if r.chance(1, 25) { i } else { r.range(i as u64 + 1, (n as u64).min(i as u64 + 4)) as usize }; (pos[i], pos[j] - pos[i]) };
     let c = r.below(12);
     if c < 4 || n == 0 && c != 6 && c != 9 { let idx = *r.pick(&pos); let s = if r.chance(1, 15) { String::new() } else { rand_string(r, 1, 4) }; return Op::TextInsert { p, xml, idx, s, attrs: None }; }
     match c {
@@ -171,6 +171,8 @@ fn gen_text<T: ReadTxn, X: Text>(r: &mut Rng, cfg: &GenCfg, t: &X, txn: &T, p: P
         6 => {
             let idx = *r.pick(&pos);
             let content = if cfg.nested && r.chance(1, 3) { match r.below(3) { 0 => Val::YText(rand_string(r, 0, 3)), 1 => Val::YMap(if r.chance(1, 2) { vec![] } else { vec![("e".into(), Val::J(rand_j(r, 1, false)))] }), _ => Val::YArr(vec![Val::J(rand_j(r, 1, false))]) } } else { Val::J(rand_j(r, 0, false)) };
+            // an embedded string cannot be told from text through `diff` (the generator computes positions from it): wrap strings
+            let content = match content { Val::J(J::Str(s)) => Val::J(J::Arr(vec![J::Str(s)])), Val::J(J::Raw(s)) if s.starts_with('"') => Val::J(J::Raw("[\"é\"]".into())), c => c };
             Op::TextEmbed { p, xml, idx, content, attrs: if r.chance(1, 3) { Some(rand_attrs(r)) } else { None } }
         }
         7 | 8 => { let (idx, len) = span(r); Op::TextRemove { p, xml, idx, len } }
@@ -202,7 +204,7 @@ pub fn gen_op<T: ReadTxn>(r: &mut Rng, cfg: &GenCfg, roots: &[Out; 4], txn: &T) 
         Out::YArray(a) => {
             let len = a.len(txn); let c = r.below(10);
             if c < 6 || len == 0 { let idx = r.below(len as u64 + 1) as u32; let n = if c < 3 { 1 } else { r.range(2, 4) }; Op::ArrInsert { p, idx, vals: (0..n).map(|_| rand_val(r, 0, cfg.nested)).collect() } }
-            else { let idx = r.below(len as u64) as u32; let l = r.range(1, (len - idx).min(3) as u64) as u32; Op::ArrRemove { p, idx, len: l } }
+            else { let idx = r.below(len as u64) as u32; let l = if r.chance(1, 25) { 0 } else { r.range(1, (len - idx).min(3) as u64) as u32 }; Op::ArrRemove { p, idx, len: l } }
         }
         Out::YMap(_) => {
             let key = r.pick(&MAP_KEYS).to_string(); let c = r.below(10);
@@ -245,7 +247,7 @@ pub unsafe fn resolve_c(roots: &[*mut y::Branch; 4], txn: *mut y::Transaction, p
 }
 fn want(kind: i8, ok: &[i8], op: &Op) -> Result<(), Fail> { if ok.contains(&kind) { Ok(()) } else { Err(json!({"class": "navigation-differs", "op": op.show(), "detail": format!("C side found kind {} at the target", kind)})) } }
 
-pub unsafe fn exec_c(roots: &[*mut y::Branch; 4], ct: *mut y::Transaction, op: &Op, built: &mut u64) -> Result<String, Fail> {
+pub unsafe fn exec_c(roots: &[*mut y::Branch; 4], ct: *mut y::Transaction, op: &Op, built: &mut std::collections::BTreeMap<String, u64>) -> Result<String, Fail> {
     let (b, kind) = resolve_c(roots, ct, op.path())?;
     let mut ar = Arena::default();
     let res = match op {
@@ -300,7 +302,8 @@ pub unsafe fn exec_c(roots: &[*mut y::Branch; 4], ct: *mut y::Transaction, op: &
         }
         Op::XmlRemoveAttr { text, name, .. } => { want(kind, &[if *text { y::Y_XML_TEXT } else { y::Y_XML_ELEM }], op)?; let n = ar.cstr(name); if *text { y::yxmltext_remove_attr(b, ct, n) } else { y::yxmlelem_remove_attr(b, ct, n) } "()".into() }
     };
-    *built += ar.built;
+    for (k, v) in ar.by.iter() { *built.entry(format!("fn:{}", k)).or_insert(0) += v; }
+    *built.entry("input_cells_built".to_string()).or_insert(0) += ar.built;
     Ok(res)
 }
 
@@ -413,8 +416,9 @@ pub const FORMAT_KEYS: [&str; 4] = FMT_KEYS;
 /// them through an update, keep their values JSON-representable (numbers finite, no undefined / binary / 64-bit integers)
 fn json_safe_j(j: &mut J) {
     match j {
-        J::Undef => *j = J::Null, J::Int(i) => *j = J::Num(if i.unsigned_abs() < (1 << 53) { *i as f64 } else { 1.0 }), J::Buf(_) => *j = J::Str("buf".into()),
-        J::Num(f) => if !f.is_finite() { *f = 0.5 } else if *f == 0.0 { *f = 0.0 },
+        J::Undef => *j = J::Null, J::Int(i) => *j = J::Num(if i.unsigned_abs() < (1 << 53) { *i as f64 } else { 1.0 }), J::Buf(_) => *j = J::Arr(vec![J::Str("buf".into())]),
+        // serde_json reads integers beyond 2^53 back as 64-bit integers and long decimal expansions one ulp off
+        J::Num(f) => if !f.is_finite() { *f = 0.5 } else if *f == 0.0 { *f = 0.0 } else if f.abs() >= 4503599627370496.0 || (f.fract() != 0.0 && (f.abs() > 1e6 || f.abs() < 1e-3)) { *f = 0.25 },
         J::Arr(v) => for x in v.iter_mut() { json_safe_j(x) }, J::Map(m) => for (_, x) in m.iter_mut() { json_safe_j(x) }, _ => {}
     }
 }
